@@ -1,5 +1,6 @@
 """Shared plumbing of /verif/check: harness build, harness jobs, TLC jobs, evidence, verdicts."""
 import json
+import re
 import os
 import random
 import shutil
@@ -123,13 +124,50 @@ class Ctx:
         if res["violation"] in ("timeout", "error") and "TRACE REJECTED" not in res["out"]:
             raise ToolError(f"trace validation {name}: {res['violation']}\n" + tlc.tail(res, 25))
         rejected_at = None
-        for line in res["out"].splitlines():
-            if "TRACE REJECTED" in line:
-                rejected_at = line.strip()
+        k = res["out"].find('"TRACE REJECTED')
+        if k >= 0:
+            # the Print spans several lines for long records
+            rejected_at = " ".join(res["out"][k - 3:k + 900].split())
         accepted = res["ok"] and rejected_at is None
         return accepted, rejected_at, res
 
     # ---- verdicts --------------------------------------------------------------------------
+    def rejected(self, module, trace_path, where, constants, invariants=(), spec_name=None, extra=None, invariant=None):
+        """A run recorded from the real code is not a behaviour of the specification: the code has left the
+        design on which the property is established. The rejected run (from its RESET record to the first
+        unexplained step) is stored next to the replay file so that `check replay` can re-validate it."""
+        m = re.search(r'TRACE REJECTED at record",?\s*(\d+)', where or "") or re.search(r"(\d+)", str((extra or {}).get("at_record", "")))
+        with open(trace_path) as f:
+            lines = f.read().splitlines()
+        d = min(int(m.group(1)), len(lines)) if m else len(lines)
+        start = max((i for i in range(d) if '"l":"RESET"' in lines[i].replace(" ", "")), default=0)
+        seg = os.path.join(REPLAY, f"{self.prop}_{len(self.violations)}_{int(time.time())}_trace.ndjson")
+        with open(seg, "w") as f:
+            f.write("\n".join(lines[start:d]) + "\n")
+        step = lines[d - 1][:600] if 0 < d <= len(lines) else "end of trace"
+        obj = {"kind": "trace_rejected", "module": module, "constants": constants, "invariants": list(invariants),
+               "trace": seg, "record_in_recorded_file": d, "first_unexplained_step": step, "signature": None}
+        if extra:
+            obj.update(extra)
+        if invariant:
+            obj["kind"] = "trace_invariant"
+            self.violation(f"invariant {invariant} of {spec_name or module} fails on a run recorded from the real code, at: {step}", obj)
+        else:
+            self.violation(f"conformance: a recorded run of the real code is not a behaviour of {spec_name or module}; first step the "
+                           f"specification cannot take: {step}", obj)
+
+    def trace_verdict(self, ok, where, tres, module, trace_path, constants, invariants, spec_name):
+        """Verdict of one trace validation: accepted, invariant failed on a recorded run, or run not explainable."""
+        if ok:
+            return True
+        if tres["invariant"]:
+            n = len(tres.get("trace_actions") or [])
+            self.rejected(module, trace_path, where, constants, invariants, spec_name=spec_name, invariant=tres["invariant"],
+                          extra={"at_record": max(n - 1, 1)} if n else None)
+        else:
+            self.rejected(module, trace_path, where, constants, invariants, spec_name=spec_name)
+        return False
+
     def violation(self, what, replay_obj):
         """A monitor failed on the real code (or a generated case disagreed with its oracle)."""
         sig = replay_obj.get("signature")
